@@ -18,4 +18,5 @@ package sort
 //@ o-mutates: list
 //@ o-ensures: [permutation] perm(r, list) && len(r) == len(list)
 //@ o-ensures: [same-elements] (forall k int :: 0 <= k && k < len(list) ==> exists l int :: 0 <= l && l < len(r) && r[l] == list[k]) && (forall k int :: 0 <= k && k < len(r) ==> exists l int :: 0 <= l && l < len(list) && r[k] == list[l])
+//@ o-ensures: [sorted-keys] forall m val :: keysOf(m, list) ==> sortedKeysOf(elem(typ), m, r)
 //@ o-ensures: [non-decreasing] forall a int, b int :: 0 <= a && a < b && b < len(r) ==> !(CmpTop(elem(typ), r[b], r[a]) < 0)
